@@ -158,6 +158,8 @@ package parsley
 //@ ghost GhostHi Pos
 
 //@ -- spec-level views of interface values, defined per concrete type by `specmethod` (heap-versioned)
+//@ -- the library's terminals only work with *text.Reader (they type-assert it); its type id is fixed by an axiom in package text
+//@ abstract func TextReaderType() int
 //@ virtual func ReaderOK(r Reader) bool
 //@ virtual func NodeOK(n Node) bool
 //@ virtual func ListSpare(n Node) int
@@ -178,7 +180,7 @@ package parsley
 //@   assigns  nothing
 
 //@ pure func InInput(r Reader, pos Pos) bool = r.Pos(0) <= pos && r.Remaining(pos) >= 0
-//@ pure func WfCtx(ctx *Context) bool = ctx != nil && ctx.reader != nil && ReaderOK(ctx.reader) && ctx.resultCache != nil && ctx.keywords != nil && (ctx.err != nil ==> ctx.err.Pos() <= GhostMaxFail)
+//@ pure func WfCtx(ctx *Context) bool = ctx != nil && ctx.reader != nil && dyntype(ctx.reader) == TextReaderType() && ReaderOK(ctx.reader) && ctx.resultCache != nil && ctx.keywords != nil && (ctx.err != nil ==> ctx.err.Pos() <= GhostMaxFail)
 
 //@ method (c *Context) FileSet() (r *FileSet) = c.fileSet
 //@ method (c *Context) Reader() (r Reader) = c.reader
